@@ -754,3 +754,18 @@ def dump(fn):
         else:
             lines.append("    %s" % (" ".join(str(x) for x in t)))
     return "\n".join(lines)
+
+
+def base_value(e, through=()):
+    """Strip wrappers, field/downcast projections and `?` (Try::branch) to reach the
+    expression a value was unpacked from."""
+    for _ in range(24):
+        e = peel_calls(e, through)
+        if e[0] in ("field", "down", "index"):
+            e = e[1]
+            continue
+        if e[0] == "call" and e[1].get("dn") == "core::ops::try_trait::Try::branch" and e[2]:
+            e = e[2][0]
+            continue
+        return e
+    return e
